@@ -87,6 +87,7 @@ SRC = {
     "C09": "find_end_subtree_from_i, find_id_args_from_i, find_first_difference_between_two, common_region_two_trees, Tree.subtree_id / subtree / concat (equal to the model on every well-formed tree, with no out-of-range access)",
     "C11": "binary_search_interval, check_for_value, argsort_k, tournament_selection, sattolo_shuffle, random_sample, random_weighted_sample",
     "C16": "EvolutionaryAlgorithm._get_n_jobs (= normJobs)",
+    "C19": "the integer counting loops of recall_score, precision_score and f1_score (= recallLoop / precisionLoop / f1Loop; in range on admissible labels)",
 }
 
 
